@@ -2279,6 +2279,18 @@ impl QueryRouter {
                 | StatementKind::DropTable(_)
                 | StatementKind::CreateIndex(_)
                 | StatementKind::DropIndex(_)
+                // Cached NEIGHBORS/PATH/SIMILAR results depend on graph and
+                // vector data, and a rollback replaces everything: without
+                // these a cached result outlives the data it was computed
+                // from (a SELECT on a table created after the checkpoint
+                // still answered after ROLLBACK TO). NODE/EDGE/EMBED/ENTITY
+                // also cover their read forms; clearing on those is only a
+                // missed cache hit.
+                | StatementKind::Node(_)
+                | StatementKind::Edge(_)
+                | StatementKind::Embed(_)
+                | StatementKind::Entity(_)
+                | StatementKind::Rollback(_)
         )
     }
 
